@@ -123,6 +123,13 @@ def gen_serial(rng, n_max=3, count=200, horizon=(8, 16, 24), budgets=(1, 2, 3, 5
         n = rng.randint(0, n_max)
         kinds = [rng.choice(['handler', 'processor', 'buffer']) for _ in range(n)]
         params = [rng.choice(STATION_PARAMS[k]) for k in kinds]
+        if n >= 2 and rng.random() < 0.35:
+            # a buffer with a minimum delay in front of a slower station (parts arrive while the head is due but blocked)
+            i = rng.randrange(n - 1)
+            kinds[i], kinds[i + 1] = 'buffer', rng.choice(['handler', 'processor'])
+            dl = rng.choice([1, 2, 5, 8, 10])
+            params[i] = dict(cap=rng.choice([1, 2, 3, -1]), delay=dl)
+            params[i + 1] = dict(cyc=dl + rng.choice([-1, 1, 1, 2, 3]))
         cfg = serial(kinds, params, src(rng.choice([0, 1, 2, 4]), rng.choice(budgets), pval=rng.choice([0, 1, 3])),
                      rng.choice([0, 1, 3]), rng.choice(horizon))
         if is_well_posed(cfg):
@@ -625,7 +632,7 @@ def quick_family(seed, scale=1.0):
     """The configurations of the quick tier (a few hundred)."""
     rng = random.Random(seed * 7919 + 13)
     out = []
-    ser = gen_serial(rng, 3, max(4, int(260 * scale)), horizon=(16, 24, 40))
+    ser = gen_serial(rng, 3, max(260, int(260 * scale)), horizon=(16, 24, 40))     # serial lines are cheap: always 260+
     out += ser
     out += [add_faults(rng, c, rng.choice([1, 2, 3])) for c in gen_serial(rng, 3, max(4, int(90 * scale)))
             if any(d['kind'] == 'processor' for d in c['devs'])]
